@@ -236,10 +236,15 @@ class ndpoly(numpy.ndarray):  # pylint: disable=invalid-name
             if ufunc not in REDUCE_MAPPINGS:
                 raise FeatureNotSupported(f"ufunc '{ufunc}.reduce' not supported.")
             ufunc = REDUCE_MAPPINGS[ufunc]
+            # ufunc.reduce reduces the first axis by default, numpy.sum all.
+            kwargs.setdefault("axis", 0)
         elif method == "accumulate":
             if ufunc not in ACCUMULATE_MAPPINGS:
                 raise FeatureNotSupported(f"ufunc '{ufunc}.accumulate' not supported.")
             ufunc = ACCUMULATE_MAPPINGS[ufunc]
+            # ufunc.accumulate runs along the first axis by default,
+            # numpy.cumsum over the flattened array.
+            kwargs.setdefault("axis", 0)
         elif method != "__call__":
             raise FeatureNotSupported(f"Method '{method}' not supported.")
         if ufunc not in numpoly.UFUNC_COLLECTION:
